@@ -387,7 +387,10 @@ class CompilerPassGenerateCode(CompilerPass):
         name = node.name
         scope_name = get_scope_name(node)
 
-        if name in self.data.modules:
+        if name in self.data.modules and not (
+            isinstance(node.scope(), nodes.FunctionDef) and name in node.scope().locals
+        ):
+            # (a local variable of a function may have the same name as an imported module)
             node._ndata.result = self.data.modules[name]
             return
         if node._ndata.result:
